@@ -65,6 +65,7 @@ type Obligation struct {
 
 // FV verifies one function (with its inlined callees).
 type FV struct {
+	imkCtr    int
 	ptrLocs   map[Term]*Loc // pointer terms that denote locations inside values (element / field-of-element addresses)
 	noTriggers bool // proving a lemma: its own trigger annotations are not emitted
 	inBinder  int // >0 while translating the body of a quantifier
